@@ -219,6 +219,11 @@ def rebase(args):
 
 
 def run(args):
+    global REPO
+    if args.repo:
+        # a parallel lane: another worktree of /repo, with --check-dir a checkout of /verif whose harness/go.mod
+        # replace directive points at that worktree (tools/lanes.sh)
+        REPO = args.repo
     ids = args.ids or sorted(os.listdir(os.path.join(VERIF, "seeded")))
     rc, out = sh(["git", "-C", REPO, "status", "--porcelain"])
     if out.strip():
@@ -242,12 +247,13 @@ def run(args):
                 for p in props:
                     t0 = time.time()
                     cdir = args.check_dir or VERIF
-                    rc, out = sh([os.path.join(cdir, "check"), p, "--tier", args.tier], cwd=cdir, timeout=7200, env={"VERIF_SEED": str(args.seed), "VERIF_NO_SAVED": "1"})
+                    rc, out = sh([os.path.join(cdir, "check"), p, "--tier", args.tier], cwd=cdir, timeout=7200, env={"VERIF_SEED": str(args.seed), "VERIF_NO_SAVED": "1", "VERIF_REPO": REPO})
                     fps = [l[len("[driver] violation "):][:400] for l in out.splitlines() if l.startswith("[driver] violation")]
                     verdict = {0: "MISSED", 1: "CAUGHT", 2: "INCONCLUSIVE"}.get(rc, f"rc={rc}")
                     meta.setdefault("checks", {})[f"{p}/{args.tier}" + (f"@{args.label}" if args.label else "")] = {
                         "verdict": verdict, "wall_s": round(time.time() - t0, 1), "seed": args.seed,
                         "first_violation": fps[0] if fps else "", "cmd": f"git -C /repo apply seeded/{sid}/patch.diff && ./check {p} --tier {args.tier}; git -C /repo checkout -- .",
+                        **({"lane": f"run in a parallel lane: worktree {REPO} of /repo HEAD and a checkout of /verif whose harness builds against it"} if args.repo else {}),
                     }
                     print(f"{sid}: {p}/{args.tier}{'@' + args.label if args.label else ''} {verdict} in {round(time.time() - t0, 1)}s {fps[0][:160] if fps else out.strip().splitlines()[-1][:160] if out.strip() else ''}", flush=True)
             finally:
@@ -276,6 +282,7 @@ def main():
     r.add_argument("--seed", type=int, default=1)
     r.add_argument("--check-dir", default="", help="run the ./check of another checkout of /verif (e.g. an older commit) and record under --label")
     r.add_argument("--label", default="")
+    r.add_argument("--repo", default="", help="apply the patches to this worktree of /repo instead of /repo itself (parallel lanes; needs a --check-dir whose go.mod points at it)")
     b = sub.add_parser("rebase")
     b.add_argument("ids", nargs="+")
     b.add_argument("--force", action="store_true")
